@@ -144,13 +144,14 @@ def dedup(names):
 E2E_ALPHABET = ['a', 'A', 'b', 'B', '1', '_', '-', '[', ']', '/', '\\', ' ', '$', '&', '.', ':', '%', '(', ')', ';', '<', '*']
 
 
-BENIGN_ALPHABET = ['a', 'b', 'c', '1', '0', '_', '-', '[', ']', '/', '\\', ' ', '$', '&', '.', ':', '%', '(', ')', ';', '<', '*', '+', '~', "'"]
+BENIGN_ALPHABET = ['a', 'b', 'c', '1', '0', '_', '-', '[', ']', '/', '\\', ' ', '$', '&', '.', ':', '%', '(', ')', ';', '<', '*', '+', '~', "'", '"']
 
 
 def e2e_name(rng, pool, benign=False):
     """benign = inside the part of the name space where C17 is expected to HOLD on the current code:
-    no upper-case letters, no double quote, short enough that nothing is cut; still adversarial
-    (sanitised twins, pre-existing x_sdn_N_ forms, leading digits / symbols)"""
+    no upper-case letters, short enough that nothing is cut; still adversarial (sanitised twins,
+    pre-existing x_sdn_N_ forms, leading digits / symbols, double quotes and percent signs - written
+    as %34% and %37% -, a trailing open bracket)"""
     alpha = BENIGN_ALPHABET if benign else E2E_ALPHABET
     r = rng.random()
     if pool and r < 0.45:
@@ -171,8 +172,9 @@ def e2e_name(rng, pool, benign=False):
         n = rng.choice([100, 200, 230, 236]) if benign else rng.choice([250, 254, 255, 256, 257, 300])
         head = rng.choice(['a', '1', '_'] if benign else ['a', 'A', '1', '_'])
         return head + ''.join(rng.choice(['a', 'b', '_', '-'] if benign else ['a', 'b', 'A', '_', '-']) for _ in range(n - 1))
-    if r < 0.57 and not benign:
-        return ''.join(rng.choice(E2E_ALPHABET + ['"']) for _ in range(rng.randint(1, 6)))
+    if r < 0.60:                                           # double quotes, percent groups, a trailing open bracket
+        s = ''.join(rng.choice(alpha + ['"', '"', '%']) for _ in range(rng.randint(1, 6)))
+        return s + rng.choice(['', '', '"', '%34%', '%37%', '%3 4%', '[', '[1', '"['])
     return ''.join(rng.choice(alpha) for _ in range(rng.randint(1, 6)))
 
 
@@ -196,7 +198,14 @@ def e2e_spec(rng, benign=None):
     for li, ln in enumerate(lib_names):
         defs = []
         for dn in e2e_scope(rng, rng.randint(1, 3), benign):
-            cables = [[c, 1 if (rng.random() < 0.9 or len(c) > 200) else rng.randint(2, 3)] for c in e2e_scope(rng, rng.randint(0, 4), benign)]
+            cables = [[c, 1 if rng.random() < 0.8 else rng.randint(2, 3)] for c in e2e_scope(rng, rng.randint(0, 4), benign)]
+            # next to a multi-wire cable: a one-wire cable named like the identifier of one of its bits
+            for c, nw in list(cables):
+                if nw > 1 and rng.random() < 0.4:
+                    twin = ''.join(ch if ch.isalnum() else '_' for ch in c)[:250] + '_%d_' % rng.randint(0, nw)
+                    twin = rng.choice([twin, twin.lower(), twin + '_sdn_1_'])
+                    if twin not in [x for x, _ in cables]:
+                        cables.insert(rng.randrange(len(cables) + 1), [twin, 1])
             defs.append({'name': dn, 'ports': e2e_scope(rng, rng.randint(0, 3), benign), 'cables': cables,
                          'insts': e2e_scope(rng, rng.randint(0, 4), benign)})
         libs.append({'name': ln, 'defs': defs})
